@@ -26,6 +26,8 @@ type Property struct {
 	Assumptions []string
 }
 
+var verbose bool
+
 func usage() {
 	fmt.Fprintln(os.Stderr, "usage: bwcheck check -property Cxx [-tier quick|thorough] [-repo /repo]\n       bwcheck replay <file>\n       bwcheck list")
 	os.Exit(2)
@@ -42,6 +44,7 @@ func main() {
 		tier := fs.String("tier", os.Getenv("VERIF_TIER"), "quick|thorough")
 		repo := fs.String("repo", "/repo", "repository root")
 		only := fs.String("only", "", "restrict the report to rule[:construct] (replay)")
+		fs.BoolVar(&verbose, "v", false, "print every obligation")
 		fs.Parse(os.Args[2:])
 		if *tier == "" {
 			*tier = "quick"
